@@ -34,6 +34,9 @@ class TraceRun:
         self.region_dead = {}      # (rid, branch) -> executed under a false effective guard
         self.tracked = {}
         self.open_blocks = 0
+        self.want_snapshots = False
+        self.snapshots = []
+        self.calls = {}
         self.outcome = None        # "completed" | "raised:<cls>"
         self.outcome_msg = ""
         self.steps = 0
@@ -123,6 +126,15 @@ class TraceRun:
                 vals.append(x)
         self.pack_out[n] = vals
 
+    def cb_callstart(self, n):
+        self.calls[n] = {"ev0": len(self.w.rec.events)}
+
+    def cb_callend(self, n, ret):
+        c = self.calls[n]
+        c["ev1"] = len(self.w.rec.events)
+        c["ret"] = snapshot_values(ret) if not isinstance(ret, dict) else ret
+        c["ret"] = _plain(ret)
+
     def cb_caught(self, site, e, model=()):
         cls = type(e).__name__
         self.caught.append((site, cls, str(e)[:60]))
@@ -155,6 +167,9 @@ class TraceRun:
             raise W.InjectedFault("injected fault at statement site %d" % site)
         self.check_point(site, loc, model, info)
         self.marks.append((site, len(self.w.rec.events)))
+        if self.want_snapshots:
+            self.snapshots.append((site, {nm: snapshot_values(v, self.w.lc_of) for nm, v in loc.items()
+                                          if nm[:2] in ("vI", "vB", "vA") and nm[2:].isdigit()}))
 
     # -- oracles -----------------------------------------------------------------------
     def ctx_flags(self, model):
@@ -292,7 +307,8 @@ class TraceRun:
             "BranchingValues": w.branching.BranchingValues, "_if": w.branching._if, "_elif": w.branching._elif,
             "_else": w.branching._else, "_endif": w.branching._endif, "_while": w.branching._while,
             "_endwhile": w.branching._endwhile, "_breakif": w.branching._breakif, "_range": w.branching._range,
-            "_endfor": w.branching._endfor, "snark": rt.snark,
+            "_endfor": w.branching._endfor, "snark": rt.snark, "__flat__": flat_leaves,
+            "__callstart__": self.cb_callstart, "__callend__": self.cb_callend,
             "__name__": "__plan__",
         }
         fname = "<plan>"
@@ -365,20 +381,126 @@ class TraceRun:
                       for v in self.violations))
 
 
-def run_native(plan, inputs=None):
+def flat_leaves(x, out=None):
+    """Leaves of nested lists / tuples / dicts in traversal order (dict values in key order of insertion)."""
+    if out is None:
+        out = []
+    if isinstance(x, (list, tuple)):
+        for y in x:
+            flat_leaves(y, out)
+    elif isinstance(x, dict):
+        for k in x:
+            flat_leaves(x[k], out)
+    else:
+        out.append(x)
+    return out
+
+
+def _plain(x):
+    if isinstance(x, list):
+        return ["list"] + [_plain(y) for y in x]
+    if isinstance(x, tuple):
+        return ["tuple"] + [_plain(y) for y in x]
+    if isinstance(x, dict):
+        return ["dict"] + [[k, _plain(x[k])] for k in x]
+    if isinstance(x, bool):
+        return int(x)
+    if isinstance(x, (int, float)):
+        return x
+    return "<%s>" % type(x).__name__
+
+
+class S(int):
+    """A 'secret' plain integer of the native twin (so that a list model can tell secret from public
+    indices); arithmetic on it gives plain ints."""
+
+
+class NArray:
+    """Python-list reference model of pysnark.array.Array."""
+
+    def __init__(self, vals):
+        self.arr = list(vals.arr) if isinstance(vals, NArray) else list(vals)
+
+    def _ix(self, i):
+        if isinstance(i, S):
+            if i < 0 or i >= len(self.arr):
+                raise IndexError("secret index out of range")
+            return int(i)
+        return i
+
+    def __getitem__(self, item):
+        if isinstance(item, tuple) and len(item) == 1:
+            item = item[0]
+        if isinstance(item, tuple):
+            return self[item[0]][item[1:]]
+        r = self.arr[self._ix(item)]
+        if isinstance(r, NArray) and isinstance(item, S):
+            return NRow(r)
+        return r
+
+    def __setitem__(self, item, value):
+        if isinstance(item, tuple) and len(item) == 1:
+            item = item[0]
+        if isinstance(item, tuple):
+            it = self[item[0]]
+            if isinstance(it, NRow):
+                it = NArray(it)
+            it[item[1:]] = value
+            self[item[0]] = it
+            return
+        self.arr[self._ix(item)] = value
+
+
+class NRow(NArray):
+    def __init__(self, base):
+        self.arr = list(base.arr)     # a row read at a secret index is a value, not a view
+
+    def __setitem__(self, item, value):
+        raise TypeError("Cannot set value in a returned array row")
+
+
+def snapshot_values(obj, lc_of=None):
+    """Plain nested-list view of a variable (native or traced)."""
+    if lc_of is not None:
+        lc = lc_of(obj)
+        if lc is not None:
+            return lc.value
+    if isinstance(obj, NArray) or (hasattr(obj, "arr") and not isinstance(obj, (int, float))):
+        return [snapshot_values(x, lc_of) for x in obj.arr]
+    if isinstance(obj, (list, tuple)):
+        return [snapshot_values(x, lc_of) for x in obj]
+    if isinstance(obj, bool):
+        return int(obj)
+    if isinstance(obj, int):
+        return int(obj)
+    return obj
+
+
+def run_native(plan, inputs=None, snapshots=None):
     """Native-control-flow twin of a block-API plan: plain ints, native if/while/for.
     Returns (outcome, {tracked name: value})."""
     from .plan import CodeGen
     gen = CodeGen(plan, "native")
     src = gen.generate()
     ident = lambda v: v
-    g = {"PrivVal": ident, "PubVal": ident, "PrivValBool": int, "PubValBool": int, "PrivValFxp": float,
+    caught = []
+    calls = {}
+
+    def step(k, loc, model):
+        if snapshots is not None:
+            snapshots.append((k, {nm: snapshot_values(v) for nm, v in loc.items()
+                                  if nm[:2] in ("vI", "vB", "vA") and nm[2:].isdigit()}))
+    g = {"PrivVal": S, "PubVal": S, "PrivValBool": int, "PubValBool": int, "PrivValFxp": float,
          "PubValFxp": float, "__inputs__": inputs if inputs is not None else [i["v"] for i in plan["inputs"]],
-         "__step__": lambda *a: None, "__caught__": lambda *a: None, "__CAUGHT__": (),
+         "__step__": step, "__caught__": lambda k, e, m=(): caught.append((k, type(e).__name__)),
+         "__CAUGHT__": Exception, "Array": NArray, "__flat__": flat_leaves,
+         "__callend__": lambda n, ret: calls.__setitem__(n, _plain(ret)),
          "__enter__": lambda *a: None, "__leave__": lambda *a: None}
     try:
         exec(compile(src, "<native>", "exec"), g)
         outcome = "completed"
     except Exception as e:
         outcome = "raised:" + type(e).__name__
+    run_native.last_caught = caught
+    run_native.last_calls = calls
     return outcome, {k[2:]: v for k, v in g.items() if k.startswith("T_")}, src
